@@ -74,9 +74,9 @@ def strip_comments(text):
     return text
 
 
-def import_closure(modules):
-    """Files (relative to lean/) reachable by `import IsoDT...` from the given modules + Main."""
-    todo = [m.replace(".", "/") + ".lean" for m in modules] + ["Main.lean"]
+def import_closure(modules, with_main=True):
+    """Files (relative to lean/) reachable by `import IsoDT...` from the given modules (+ Main)."""
+    todo = [m.replace(".", "/") + ".lean" for m in modules] + (["Main.lean"] if with_main else [])
     seen = []
     while todo:
         rel = todo.pop()
@@ -302,7 +302,17 @@ def main(argv):
         tcode = 3
         log("translate crashed: %r" % (exc,))
     if tcode != 0:
-        broken.append("translator: Gen could not be regenerated from the source")
+        # A generator that fails is a broken tie only for the properties whose theorems or model rest on
+        # that Gen module (its import closure); for the others it is reported, not counted.
+        needed = set(os.path.basename(rel)[:-5] for rel in import_closure(mod.LEAN_MODULES, with_main=False)
+                     if rel.startswith("IsoDT/Gen/"))
+        needed |= set(getattr(mod, "GEN_DEPS", []))
+        failed = list(getattr(translate, "LAST_FAILED", [])) or [("?", "translator crashed")]
+        for name, msg in failed:
+            if name in needed or name == "?":
+                broken.append("translator: Gen/%s.lean could not be regenerated from the source: %s" % (name, msg[:200]))
+            else:
+                log("note: Gen/%s.lean could not be regenerated (%s); not used by %s" % (name, msg[:120], prop))
 
     # -- 2. build ----------------------------------------------------------------------
     binfo = build(mod.LEAN_MODULES)
